@@ -8,9 +8,11 @@ Binding: the family drivers are rebuilt with the race detector and run the same 
 each goroutine writes its own trace, and every trace is validated by TLC against the same sequential operators as the
 sequential checks (a result that depends on another goroutine's activity is a mismatch); race reports with a frame in
 the library are violations."""
-import json, os, re, sys
+import copy, json, os, random, re, sys, time
+from concurrent.futures import ThreadPoolExecutor
 sys.path.insert(0, os.path.dirname(os.path.abspath(__file__)))
 from codec_common import *
+import c19fam
 
 META = dict(
     property_id="C19", engine="tlc-concurrency",
@@ -83,6 +85,190 @@ def family_codec(c, thorough):
     return total
 
 
+# ---------------------------------------------------------------------------------------------------------------------
+# the other families (conversions, identities, lists, QoS, PCO/PSI, UE policy, ciphering/MAC): harness/cmd/conc
+def mode_of(n, rounds):
+    """alternate = even rounds aligned (same operation kind at the same time in all goroutines, different values),
+    odd rounds staggered (different operations overlap); single-round configurations take one of the two"""
+    if rounds >= 2: return "alternate"
+    return "aligned" if n >= 32 else "staggered"
+
+
+def prepare_pools(c, fams):
+    """TLC generators of all families side by side, meanwhile the family drivers that record seeded random traces"""
+    sd = c.spec_dir("gen19")
+    out = {}
+
+    def one(f):
+        pool, res = f.pool(c, sd)
+        return f.name, pool, res
+    with ThreadPoolExecutor(max_workers=len(fams) + 1) as ex:
+        futs = [ex.submit(one, f) for f in fams]
+
+        def rec(f):
+            drv = c.build_driver(f.records)
+            o = os.path.join(c.scratch, "c19-rec-%s.ndjson" % f.records)
+            c.run_driver(drv, ["record", o], env=dict(VERIF_TIER="quick"), timeout=900)
+            return f.name, read_ndjson(o)
+        rfuts = [ex.submit(rec, f) for f in fams if f.records]
+        for fu in futs:
+            name, pool, res = fu.result()
+            out[name] = dict(pool=pool, states=res.distinct, transitions=res.generated, wall=res.wall)
+        for fu in rfuts:
+            name, events = fu.result()
+            f = [x for x in fams if x.name == name][0]
+            n0 = len(out[name]["pool"])
+            f.add_recorded(out[name]["pool"], events)
+            out[name]["recorded"] = len(out[name]["pool"]) - n0
+    return out
+
+
+def run_conc(c, drv, fams, plans, n, procs, rounds, tag):
+    """one configuration: manifest + case files, the race-detector run, race reports; returns {family: [(gid, events, idx)]}"""
+    d = c.sub("conc-" + tag)
+    man = dict(families=[])
+    for f in fams:
+        cases, blocks, lo = [], [], 0
+        for name, cs in plans[f.name]:
+            if not cs: continue
+            cases += cs; blocks.append([lo, lo + len(cs)]); lo += len(cs)
+        cp = os.path.join(d, "cases-%s.json" % f.name)
+        json.dump(cases, open(cp, "w"), separators=(",", ":"))
+        man["families"].append(dict(name=f.name, cases=cp, blocks=blocks))
+    mp = os.path.join(d, "manifest.json"); json.dump(man, open(mp, "w"))
+    env = dict(GOMAXPROCS=str(procs), GORACE="halt_on_error=0 exitcode=0 log_path=%s/race" % d)
+    c.run_driver(drv, ["runpar", mp, os.path.join(d, "g"), n, rounds, mode_of(n, rounds)], env=env, timeout=2400)
+    lib, other = race_reports(d)
+    if other:
+        raise Infra("race reported in harness code only (%d reports) - harness bug" % other)
+    traces = {}
+    for f in fams:
+        rows = []
+        for g in range(n):
+            base = os.path.join(d, "g.%s.%d" % (f.name, g))
+            if not os.path.exists(base + ".ndjson"): raise Infra("goroutine trace %s missing" % base)
+            idx = [tuple(int(x) for x in ln.split()) for ln in open(base + ".idx") if ln.strip()]
+            evs = read_ndjson(base + ".ndjson")
+            if sum(k for _, k in idx) != len(evs): raise Infra("trace %s and its case index disagree" % base)
+            rows.append((g, evs, idx))
+        traces[f.name] = rows
+    return traces, lib, json.load(open(mp))
+
+
+def seq_confirm(c, drv, f, cases):
+    """the same cases, single-threaded, in a fresh process: the set of (case number, event within the case, verdict)"""
+    d = c.sub("seq-%s-%d" % (f.name, int(time.time() * 1000) % 100000))
+    cp = os.path.join(d, "cases.json"); json.dump(cases, open(cp, "w"))
+    mp = os.path.join(d, "manifest.json")
+    json.dump(dict(families=[dict(name=f.name, cases=cp, blocks=[[0, len(cases)]])]), open(mp, "w"))
+    c.run_driver(drv, ["runpar", mp, os.path.join(d, "g"), 1, 1, "staggered"], env=dict(GOMAXPROCS="1", GORACE="halt_on_error=0 exitcode=0 log_path=%s/race" % d), timeout=600)
+    base = os.path.join(d, "g.%s.0" % f.name)
+    evs = read_ndjson(base + ".ndjson")
+    where = []
+    for ln in open(base + ".idx"):
+        ci, k = (int(x) for x in ln.split())
+        where += [(ci, j) for j in range(k)]
+    cc = copy.copy(c); cc.cov = dict(states=0, transitions=0, traces_validated_against_impl=0)
+    out = set()
+    for i, t in cc.validate(f.trace, evs, shards=1):
+        v = f.verdict(t)
+        if v is not None and i < len(where): out.add((where[i][0], where[i][1], v))
+    return out, evs, where
+
+
+def family_others(c, thorough, fams, pools, drv):
+    scale = 2 if thorough else 1
+    per_fam = {f.name: dict(events=[], origin=[]) for f in fams}       # origin: (tag, gid, case object, event-in-case, config)
+    races = {}
+    t_run = time.time()
+    for n, procs, rounds in (CONFIGS_T if thorough else CONFIGS_Q):
+        tag = "%d-%d" % (n, procs)
+        plans = {}
+        for f in fams:
+            rng = random.Random("%d/%s/%s" % (c.seed, f.name, tag))
+            plans[f.name] = f.plan(pools[f.name]["pool"], rng, 1 if f.name in ("f06", "f07") else scale)
+        traces, lib, man = run_conc(c, drv, fams, plans, n, procs, rounds, tag)
+        cfg = dict(goroutines=n, gomaxprocs=procs, rounds=rounds, schedule=mode_of(n, rounds))
+        for blk in lib:
+            fn = re.search(r"(github.com/free5gc/nas[^\s(]*)", blk)
+            key = fn.group(1) if fn else "library"
+            races.setdefault(key, (cfg, blk))
+        for f in fams:
+            cases = [x for _, cs in plans[f.name] for x in cs]
+            acc = per_fam[f.name]
+            for g, evs, idx in traces[f.name]:
+                j = 0
+                for ci, k in idx:
+                    for q in range(k):
+                        acc["events"].append(evs[j]); acc["origin"].append((tag, g, cases[ci], q, cfg)); j += 1
+                c.count_distinct((f.name, tag, g))
+        c.sample(dict(config="conc-" + tag, schedule=cfg["schedule"], goroutine_traces={f.name: len(traces[f.name]) for f in fams},
+                      blocks={x["name"]: len(x["blocks"]) for x in man["families"]}))
+    t_run = time.time() - t_run
+    for key, (cfg, blk) in sorted(races.items())[:6]:
+        c.report("race", key, "data race reported by the race detector with %d goroutines, GOMAXPROCS=%d (families other than the codec)" % (cfg["goroutines"], cfg["gomaxprocs"]),
+                 dict(config=dict(cfg, family="conc"), report=blk))
+    # ---- every per-goroutine trace is judged by the family's own trace specification (families side by side)
+    t_val = time.time()
+
+    def val(f):
+        cc = copy.copy(c); cc.cov = dict(states=0, transitions=0, traces_validated_against_impl=0)
+        evs = per_fam[f.name]["events"]
+        t0 = time.time()
+        mism = cc.validate(f.trace, evs, shards=min(f.shards * (2 if thorough else 1), 14, max(1, len(evs) // 300)), timeout=3000)
+        return f, mism, cc.cov, time.time() - t0
+    stats = {}
+    with ThreadPoolExecutor(max_workers=3) as ex:
+        results = list(ex.map(val, sorted(fams, key=lambda f: -len(per_fam[f.name]["events"]))))
+    for f, mism, cov, wall in results:
+        for k in ("states", "transitions", "traces_validated_against_impl"): c.cov[k] += cov[k]
+        acc = per_fam[f.name]
+        stats[f.name] = dict(judged_by=f.trace, events=len(acc["events"]), validation_s=round(wall, 1), generator_s=round(pools[f.name]["wall"], 1),
+                             pool=len(pools[f.name]["pool"]), recorded_cases=pools[f.name].get("recorded", 0))
+        bad = []
+        for i, t in mism:
+            v = f.verdict(t)
+            if v is not None: bad.append((i, v, t))
+        if not bad: continue
+        # sequential behaviour of the implicated cases (fresh process, one goroutine)
+        uniq, order = {}, []
+        for i, v, t in bad:
+            key = json.dumps(acc["origin"][i][2], sort_keys=True)
+            if key not in uniq:
+                if len(order) >= 400: continue
+                uniq[key] = len(order); order.append(acc["origin"][i][2])
+        seq, _, _ = seq_confirm(c, drv, f, order)
+        nseq, seen = 0, {}
+        for i, v, t in bad:
+            tag, g, case, q, cfg = acc["origin"][i]
+            key = json.dumps(case, sort_keys=True)
+            if key not in uniq: continue
+            if (uniq[key], q, v) in seq:
+                nseq += 1; continue          # the sequential run shows the same mismatch: the family's own finding, not C19
+            seen[v] = seen.get(v, 0) + 1
+            if seen[v] > 2: continue
+            e = json.loads(acc["events"][i])
+            c.report("concurrent-%s-%s" % (f.pid, v[0]), str(v[1]) or "wrong-result",
+                     "%s judged by %s: goroutine %d of %d (GOMAXPROCS=%d, %s): the result of %s differs from the sequential specification (%s) - a single-threaded run of the same case in a fresh process does not show it" % (
+                         f.name, f.trace, g, cfg["goroutines"], cfg["gomaxprocs"], cfg["schedule"], v[0], v[1] or "value"),
+                     dict(config=dict(cfg, family=f.name, goroutine=g), case=case, observed=e if len(acc["events"][i]) < 4000 else acc["events"][i][:4000], mismatch=list(t),
+                          how="harness/cmd/conc runpar <manifest with this case> <prefix> N rounds alternate under -race with other goroutines working on different values; validate each <prefix>.%s.<g>.ndjson with spec/trace/%s" % (f.name, f.trace)))
+        stats[f.name]["mismatches"] = dict(total=len(bad), also_sequential=nseq, concurrent_only=sum(seen.values()))
+        if nseq:
+            c.note("%s: %d mismatching events on concurrent traces are reproduced by a single-threaded run of the same cases (the finding of %s, not a concurrency effect)" % (f.name, nseq, f.pid))
+    t_val = time.time() - t_val
+    c.cov["families"] = stats
+    c.cov["conc_run_s"] = round(t_run, 1); c.cov["conc_validation_s"] = round(t_val, 1)
+    return sum(len(per_fam[f.name]["events"]) for f in fams)
+
+
+def sec_included(c):
+    """ciphering / integrity join only when their own files are complete (another builder may still be working on them)"""
+    need = ["spec/mc/MC_C06_gen.tla", "spec/mc/MC_C06_gen.cfg", "spec/mc/MC_C07_gen.cfg", "spec/trace/Trace_C06.tla", "spec/trace/Trace_C07.tla",
+            "harness/cmd/sec/main.go", "tools/checks/c06.py", "tools/checks/c07.py"]
+    return all(os.path.exists(os.path.join(VERIF, p)) for p in need) and not os.environ.get("VERIF_C19_NOSEC")
+
+
 def run(c):
     thorough = c.tier == "thorough"
     sd = c.spec_dir("mc19")
@@ -91,10 +277,23 @@ def run(c):
     if res.violated != "ResultsSequential":
         raise Infra("the broken library variant was not rejected by the model: the property would be vacuous")
     c.cov["binding_selftest"] = "broken variant (argument parked in a package-level cell) violates ResultsSequential in the model"
-    total = family_codec(c, thorough)
+    fams = c19fam.families(with_sec=sec_included(c))
+    conc = c.build_driver("conc", race=True)           # first build: copies the harness (not thread-safe), before any thread starts
+    with ThreadPoolExecutor(max_workers=1) as ex:
+        fut = ex.submit(prepare_pools, c, fams)         # the families' generators work while the codec family runs
+        total = family_codec(c, thorough)
+        pools = fut.result()
+    for f in fams:
+        c.cov["states"] += pools[f.name]["states"]; c.cov["transitions"] += pools[f.name]["transitions"]
+    total_codec = total
+    total += family_others(c, thorough, fams, pools, conc)
+    c.cov["families"]["codec"] = dict(judged_by="Trace_C19", events=total_codec)
     c.cov["evaluations"] = total
-    c.cov["rule"] = "cases = library calls made concurrently; distinct non-trivial = distinct (configuration, goroutine) traces, each validated in full against the sequential specification"
-    c.assumptions += ["schedules are sampled, not enumerated", "race detector happens-before analysis"]
+    c.cov["rule"] = ("cases = events of library calls made concurrently (codec family + %s); distinct non-trivial = distinct (family, configuration, goroutine) traces, "
+                     "each validated in full by TLC against the family's sequential specification" % ", ".join(f.name for f in fams))
+    c.assumptions += ["schedules are sampled, not enumerated", "race detector happens-before analysis",
+                      "stateful objects (NAS COUNT, identifier allocator) are outside: the property is about independent values",
+                      "a mismatch on a concurrent trace counts only if a single-threaded run of the same case in a fresh process does not show it"]
 
 
 if __name__ == "__main__":
